@@ -58,7 +58,9 @@ const NOMINATION_TIMEOUT: Duration = Duration::from_millis(800);
 /// + disconnect grace + the property's grace.
 const NOTICE_CAP: Duration = Duration::from_millis(2000 + 1000 + 300 + 1000 + 2000);
 /// Whole-run watchdog inside the worker (a synchronous hang in close()/drop is reported by it).
-const RUN_WATCHDOG: Duration = Duration::from_secs(40);
+const RUN_WATCHDOG: Duration = Duration::from_secs(75);
+/// rustrtc's hard-coded DTLS handshake timeout (src/transports/dtls/mod.rs, non-test build).
+const DTLS_HANDSHAKE_TIMEOUT: Duration = Duration::from_secs(30);
 
 const WEBRTC_POINTS: &[&str] = &[
     "created",
@@ -71,6 +73,7 @@ const WEBRTC_POINTS: &[&str] = &[
     "channel-open",
     "media-flowing",
     "renegotiating",
+    "renegotiated",
 ];
 const DIRECT_POINTS: &[&str] = &[
     "created",
@@ -81,6 +84,7 @@ const DIRECT_POINTS: &[&str] = &[
     "connected",
     "media-flowing",
     "renegotiating",
+    "renegotiated",
 ];
 
 fn points_of(mode: &str) -> &'static [&'static str] {
@@ -108,11 +112,13 @@ struct Case {
     /// acting side: "A" (offerer) or "B" (answerer)
     actor: String,
     relay: bool,
+    /// thorough tier: wait for the 30 s DTLS handshake timeout where it is what bounds a notice
+    long_notice: bool,
 }
 
 impl Case {
     fn to_json(&self) -> Value {
-        json!({"mode": self.mode, "point": self.point, "events": self.events, "actor": self.actor, "relay": self.relay})
+        json!({"mode": self.mode, "point": self.point, "events": self.events, "actor": self.actor, "relay": self.relay, "long_notice": self.long_notice})
     }
     fn from_json(v: &Value) -> Option<Case> {
         Some(Case {
@@ -121,6 +127,7 @@ impl Case {
             events: v["events"].as_array()?.iter().filter_map(|e| e.as_str().map(|s| s.to_string())).collect(),
             actor: v["actor"].as_str()?.to_string(),
             relay: v["relay"].as_bool().unwrap_or(false),
+            long_notice: v["long_notice"].as_bool().unwrap_or(false),
         })
     }
     fn event_name(&self) -> String {
@@ -537,6 +544,9 @@ struct Side {
     blocked_done: Arc<AtomicBool>,
     had_remote: bool,
     closed_by_harness: bool,
+    /// kinds already reported on this side (reported once, not waited for again)
+    failed: std::collections::BTreeSet<String>,
+    ever_connected: Arc<AtomicBool>,
 }
 
 impl Side {
@@ -545,6 +555,11 @@ impl Side {
     }
     fn reason(&self) -> Option<DisconnectReason> {
         self.reason_rx.borrow().clone()
+    }
+    fn fail_once(&mut self, log: &Log, on: &str, kind: &str, detail: String) {
+        if self.failed.insert(kind.to_string()) {
+            log.fail(on, kind, detail);
+        }
     }
     fn snapshot(&self) -> String {
         format!("{:?}/{:?}/{:?}", self.state(), self.reason(), *self.sig_rx.borrow())
@@ -579,10 +594,12 @@ fn make_side(name: &'static str, mode: &str, log: &Log, with_pending_calls: bool
     let mut srx = pc.subscribe_peer_state();
     let mut irx = pc.subscribe_ice_connection_state();
     let lg = log.clone();
+    let ever_connected = Arc::new(AtomicBool::new(false));
+    let ec = ever_connected.clone();
     let obs = tokio::spawn(async move {
         loop {
             tokio::select! {
-                r = srx.changed() => { if r.is_err() { lg.note(format!("{name} peer-state channel closed")); break; } let s = *srx.borrow_and_update(); lg.note(format!("{name} peer_state -> {s:?}")); }
+                r = srx.changed() => { if r.is_err() { lg.note(format!("{name} peer-state channel closed")); break; } let s = *srx.borrow_and_update(); if s == PeerConnectionState::Connected { ec.store(true, Ordering::SeqCst); } lg.note(format!("{name} peer_state -> {s:?}")); }
                 r = irx.changed() => { if r.is_err() { break; } let s = *irx.borrow_and_update(); lg.note(format!("{name} ice_state -> {s:?}")); }
             }
         }
@@ -643,6 +660,8 @@ fn make_side(name: &'static str, mode: &str, log: &Log, with_pending_calls: bool
         blocked_done: Arc::new(AtomicBool::new(false)),
         had_remote: false,
         closed_by_harness: false,
+        failed: Default::default(),
+        ever_connected,
     }
 }
 
@@ -654,6 +673,7 @@ struct Shared {
     src_task: Mutex<Option<JoinHandle<()>>>,
     relay: Option<Arc<Relay>>,
     reached: Mutex<Vec<String>>,
+    steady_datagrams: AtomicU64,
 }
 
 async fn wait_until(fire: &Fire, log: &Log, what: &str, mut cond: impl FnMut() -> bool) -> bool {
@@ -884,11 +904,22 @@ async fn script(sh: Arc<Shared>, case: Case, fire: Fire, log: Log) -> bool {
     } else {
         let srx = subj.subscribe_peer_state();
         let orx = (if actor_is_a { &pb } else { &pa }).subscribe_peer_state();
-        if !wait_until(&fire, &log, "both peer states Connected", || {
+        let setup_failed = Arc::new(AtomicBool::new(false));
+        let sf = setup_failed.clone();
+        let ok = wait_until(&fire, &log, "both peer states Connected", || {
+            if is_terminal(*srx.borrow()) || is_terminal(*orx.borrow()) {
+                sf.store(true, Ordering::SeqCst);
+                return true;
+            }
             *srx.borrow() == PeerConnectionState::Connected && *orx.borrow() == PeerConnectionState::Connected
         })
-        .await
-        {
+        .await;
+        if setup_failed.load(Ordering::SeqCst) {
+            log.fail("run", "unreached", format!("set-up failed before any event: A {:?}/{:?}  B {:?}/{:?}", *pa.subscribe_peer_state().borrow(), pa.disconnect_reason(), *pb.subscribe_peer_state().borrow(), pb.disconnect_reason()));
+            return false;
+        }
+        if !ok {
+            log.note(format!("set-up diagnosis: A {:?}/{:?}  B {:?}/{:?}", *pa.subscribe_peer_state().borrow(), pa.disconnect_reason(), *pb.subscribe_peer_state().borrow(), pb.disconnect_reason()));
             return false;
         }
         boundary!("connected");
@@ -971,6 +1002,10 @@ async fn script(sh: Arc<Shared>, case: Case, fire: Fire, log: Log) -> bool {
     if !wait_until(&fire, &log, "5 more media samples after renegotiation", || samples.load(Ordering::SeqCst) >= s0 + 5).await {
         return false;
     }
+    if let Some(r) = &sh.relay {
+        sh.steady_datagrams.store(r.count.load(Ordering::SeqCst), Ordering::SeqCst);
+    }
+    boundary!("renegotiated");
     boundary!("steady");
     // datagram-boundary runs: keep the connection up until the event (or the harness gives up)
     fire.wait().await;
@@ -1042,114 +1077,171 @@ async fn wait_for(cap: Duration, mut cond: impl FnMut() -> bool) -> bool {
 }
 
 /// terminal peer state + disconnect reason within `cap`
-async fn judge_terminal(side: &Side, on: &str, cap: Duration, log: &Log) -> bool {
+async fn judge_terminal(side: &mut Side, on: &str, cap: Duration, log: &Log) -> bool {
     let ok = wait_for(cap, || is_terminal(side.state()) && side.reason().is_some()).await;
     if !ok {
         let st = side.state();
         if !is_terminal(st) {
-            log.fail(on, "no-terminal-state", format!("{}: peer state {:?} (reason {:?}) {:?} after the event", side.name, st, side.reason(), cap));
+            side.fail_once(log, on, "no-terminal-state", format!("{}: peer state {:?} (reason {:?}) {:?} after the event", side.name, st, side.reason(), cap));
         } else {
-            log.fail(on, "no-reason", format!("{}: peer state {:?} but disconnect_reason() is None {:?} after the event", side.name, st, cap));
+            side.fail_once(log, on, "no-reason", format!("{}: peer state {:?} but disconnect_reason() is None {:?} after the event", side.name, st, cap));
         }
     }
     ok
 }
 
-/// every channel that had seen Open: Close exactly once, then None
-async fn judge_channels(side: &Side, on: &str, cap: Duration, log: &Log) {
+/// One GRACE window for everything that must have happened once the connection has ended:
+/// every channel that had seen Open observed Close exactly once and then None; every call that
+/// was pending returned.  Conditions that already failed on this side are not waited for again.
+async fn judge_ended(side: &mut Side, on: &str, log: &Log) {
     let dcs = side.dcs.clone();
-    let _ = wait_for(cap, || {
+    let app_ended0 = side.closed_by_harness || side.state() == PeerConnectionState::Closed;
+    let chans_done = || {
         dcs.lock().unwrap().iter().all(|w| {
             let l = w.log.lock().unwrap();
-            l.opens == 0 || (l.closes >= 1 && l.ended)
+            l.ended || (l.opens > 0 && l.closes > 1) || (l.opens == 0 && !app_ended0)
         })
-    })
-    .await;
-    // a late second Close would arrive right behind the first one; give it a moment
-    tokio::time::sleep(Duration::from_millis(30)).await;
-    for w in dcs.lock().unwrap().iter() {
-        let l = w.log.lock().unwrap().clone();
-        if l.opens == 0 {
-            continue;
-        }
-        if l.closes != 1 {
-            log.fail(on, format!("close-event-count={}", l.closes), format!("{}.dc[{}] had seen Open and observed Close {} times within {:?} ({:?})", side.name, w.label, l.closes, cap, l));
-        } else if !l.ended {
-            log.fail(on, "hang:dc.recv", format!("{}.dc[{}] saw Close but recv() did not return None within {:?} ({:?})", side.name, w.label, cap, l));
-        }
-    }
-}
-
-/// pending calls that were outstanding at the event
-async fn judge_pending(side: &mut Side, on: &str, log: &Log) {
-    if let Some(h) = side.wfc.as_mut() {
-        match tokio::time::timeout(GRACE, h).await {
-            Ok(_) => {
-                side.wfc = None;
-            }
-            Err(_) => log.fail(on, "hang:wait_for_connected", format!("{}: wait_for_connected() pending since creation did not return within {:?} of the event (state {:?})", side.name, GRACE, side.state())),
-        }
-    }
-    if side.track_task.is_some() && !wait_for(GRACE, || side.track_ended.load(Ordering::SeqCst)).await {
-        log.fail(on, "hang:track.recv", format!("{}: remote track recv() pending at the event did not return within {:?}", side.name, GRACE));
-    }
-    if side.pump.is_some() && !wait_for(GRACE, || side.pump_ended.load(Ordering::SeqCst)).await {
-        log.fail(on, "hang:pc.recv", format!("{}: PeerConnection::recv() pending at the event did not return within {:?}", side.name, GRACE));
-    }
-    if side.blocked.is_some() && !wait_for(GRACE, || side.blocked_done.load(Ordering::SeqCst)).await {
-        log.fail(on, "hang:send_data(blocked)", format!("{}: send_data() blocked on a full window did not return within {:?} of the event", side.name, GRACE));
-    }
-    // channels that never opened: their recv() is a pending call too
-    for w in side.dcs.lock().unwrap().iter() {
-        let l = w.log.lock().unwrap().clone();
-        if l.opens == 0 && !l.ended {
-            log.fail(on, "hang:dc.recv(unopened)", format!("{}.dc[{}] never opened; its recv() pending at the event did not return within {:?}", side.name, w.label, GRACE));
+    };
+    let wfc_done = |s: &Side| s.wfc.as_ref().map(|h| h.is_finished()).unwrap_or(true);
+    // PeerConnection::recv(), a remote track's recv() and the recv() of a channel that never
+    // opened are judged once the application has ended this side (close()/drop) or it reports
+    // Closed; while it is only Failed they may legitimately stay pending until close()
+    // (tolerance, see assumptions)
+    let app_ended = side.closed_by_harness || side.state() == PeerConnectionState::Closed;
+    let t = Instant::now();
+    loop {
+        let all = (chans_done() || side.failed.iter().any(|k| k.starts_with("close-event-count") || k.starts_with("hang:dc.recv")))
+            && (wfc_done(side) || side.failed.contains("hang:wait_for_connected"))
+            && (!app_ended || side.track_task.is_none() || side.track_ended.load(Ordering::SeqCst) || side.failed.contains("hang:track.recv"))
+            && (!app_ended || side.pump.is_none() || side.pump_ended.load(Ordering::SeqCst) || side.failed.contains("hang:pc.recv"))
+            && (side.blocked.is_none() || side.blocked_done.load(Ordering::SeqCst) || side.failed.contains("hang:send_data(blocked)"));
+        if all || t.elapsed() >= GRACE {
             break;
         }
+        tokio::time::sleep(Duration::from_millis(5)).await;
     }
-}
-
-/// subsequent calls return promptly
-async fn judge_subsequent(side: &Side, on: &str, log: &Log) {
-    let Some(pc) = side.pc.clone() else { return };
-    macro_rules! probe {
-        ($name:expr, $fut:expr) => {{
-            log.step(&format!("{}.{} (subsequent)", side.name, $name));
-            let t = Instant::now();
-            match tokio::time::timeout(GRACE, $fut).await {
-                Ok(r) => log.note(format!("{} subsequent {} -> {} in {:?}", side.name, $name, if r { "Ok" } else { "Err" }, t.elapsed())),
-                Err(_) => log.fail(on, format!("hang:{}", $name), format!("{}: {}() called after the event did not return within {:?}", side.name, $name, GRACE)),
+    // a second Close would sit right behind the first one in the channel's queue
+    tokio::time::sleep(Duration::from_millis(20)).await;
+    let logs: Vec<(String, DcLog)> = dcs.lock().unwrap().iter().map(|w| (w.label.clone(), w.log.lock().unwrap().clone())).collect();
+    for (label, l) in logs {
+        if l.opens > 0 {
+            if l.closes != 1 {
+                side.fail_once(log, on, &format!("close-event-count={}", l.closes), format!("{}.dc[{}] had seen Open and observed Close {} time(s) within {:?} of the end of the connection ({:?})", side.name, label, l.closes, GRACE, l));
+            } else if !l.ended {
+                side.fail_once(log, on, "hang:dc.recv", format!("{}.dc[{}] saw Close but recv() did not then return None within {:?} ({:?})", side.name, label, GRACE, l));
             }
-        }};
+        } else if !l.ended && app_ended {
+            side.fail_once(log, on, "hang:dc.recv(unopened)", format!("{}.dc[{}] never opened; its pending recv() did not return within {:?} of the end of the connection", side.name, label, GRACE));
+        }
     }
-    probe!("send_data", async { pc.send_data(0, b"after").await.is_ok() });
-    probe!("create_offer", async { pc.create_offer().await.is_ok() });
-    probe!("wait_for_connected", async { pc.wait_for_connected().await.is_ok() });
+    if !wfc_done(side) {
+        side.fail_once(log, on, "hang:wait_for_connected", format!("{}: wait_for_connected() pending since creation did not return within {:?} (state {:?})", side.name, GRACE, side.state()));
+    }
+    if app_ended && side.track_task.is_some() && !side.track_ended.load(Ordering::SeqCst) {
+        side.fail_once(log, on, "hang:track.recv", format!("{}: remote track recv() pending at the event did not return within {:?} (state {:?})", side.name, GRACE, side.state()));
+    }
+    if app_ended && side.pump.is_some() && !side.pump_ended.load(Ordering::SeqCst) {
+        side.fail_once(log, on, "hang:pc.recv", format!("{}: PeerConnection::recv() pending at the event did not return within {:?} (state {:?})", side.name, GRACE, side.state()));
+    }
+    if side.blocked.is_some() && !side.blocked_done.load(Ordering::SeqCst) {
+        side.fail_once(log, on, "hang:send_data(blocked)", format!("{}: send_data() blocked on a full window did not return within {:?} of the event", side.name, GRACE));
+    }
 }
 
-/// second close() is a no-op
+/// subsequent calls return promptly (all three concurrently, each under GRACE)
+async fn judge_subsequent(side: &mut Side, on: &str, log: &Log) {
+    let Some(pc) = side.pc.clone() else { return };
+    log.step(&format!("{}.<subsequent calls>", side.name));
+    let (p1, p2, p3) = (pc.clone(), pc.clone(), pc);
+    let ended = is_terminal(side.state());
+    let (a, b, c) = tokio::join!(
+        tokio::time::timeout(GRACE, async move { p1.send_data(0, b"after").await.is_ok() }),
+        tokio::time::timeout(GRACE, async move { p2.create_offer().await.is_ok() }),
+        // wait_for_connected() legitimately waits while the connection is still coming up: it is
+        // only a *subsequent call that must return* once this side has ended
+        tokio::time::timeout(GRACE, async move { if ended { p3.wait_for_connected().await.is_ok() } else { true } }),
+    );
+    for (name, r) in [("send_data", a), ("create_offer", b), ("wait_for_connected", c)] {
+        match r {
+            Ok(ok) => log.note(format!("{} subsequent {name} -> {}", side.name, if ok { "Ok" } else { "Err" })),
+            Err(_) => side.fail_once(log, on, &format!("hang:{name}(subsequent)"), format!("{}: {name}() called after the event did not return within {:?} (state {:?})", side.name, GRACE, side.state())),
+        }
+    }
+}
+
+/// Full judgement of one side after an event. `end_cap`: Some(cap) if the property requires this
+/// side to end (terminal state + reason) within cap; None if it is not required to notice.
+async fn judge_side(side: &mut Side, on: &str, end_cap: Option<Duration>, log: &Log) {
+    if let Some(cap) = end_cap {
+        if judge_terminal(side, on, cap, log).await {
+            judge_ended(side, on, log).await;
+        }
+    }
+    judge_subsequent(side, on, log).await;
+}
+
+/// Complete judgement of one side: end (if required), pending and subsequent calls, then an
+/// explicit close() (harmless; a second close is a no-op) and the end-of-connection checks again.
+async fn judge_one(side: &mut Side, on: &'static str, cap: Option<Duration>, defer: bool, log: &Log, deferred: &AtomicU64) -> String {
+    let mut cap = cap;
+    if defer {
+        // quick tier: a side that was still connecting is bounded by the 30 s DTLS handshake
+        // timeout, which the quick tier does not wait for: not judged, counted
+        let c = cap.unwrap_or(NOTICE_CAP);
+        if !wait_for(c, || is_terminal(side.state()) && side.reason().is_some()).await {
+            log.note(format!("{} still {:?} after {:?}: bounded only by the 30 s handshake timeout — deferred to the thorough tier", side.name, side.state(), c));
+            deferred.fetch_add(1, Ordering::SeqCst);
+            cap = None;
+        } else {
+            cap = Some(Duration::from_millis(1));
+        }
+    }
+    judge_side(side, on, cap, log).await;
+    let after = side.snapshot();
+    judge_second_close(side, on, log);
+    if side.pc.is_some() || side.closed_by_harness {
+        judge_ended(side, on, log).await;
+    }
+    after
+}
+
+
+/// explicit close() on a handle that is still held is harmless; a second close() is a no-op
 fn judge_second_close(side: &mut Side, on: &str, log: &Log) {
     let Some(pc) = side.pc.clone() else { return };
-    log.step(&format!("{}.close (first explicit / second)", side.name));
+    log.step(&format!("{}.close (explicit, then second)", side.name));
     let p2 = pc.clone();
+    let already_closed = side.closed_by_harness;
+    let s0 = side.snapshot();
     if let Err(p) = vh::catch(std::panic::AssertUnwindSafe(move || p2.close())) {
-        log.fail(on, "panic", format!("close() panicked: {p}"));
+        side.fail_once(log, on, "panic", format!("close() panicked: {p}"));
     }
     side.closed_by_harness = true;
     let s1 = side.snapshot();
+    if already_closed && s0 != s1 {
+        side.fail_once(log, on, "second-close-changed-state", format!("{}: {} -> {}", side.name, s0, s1));
+    }
     if let Err(p) = vh::catch(std::panic::AssertUnwindSafe(move || pc.close())) {
-        log.fail(on, "panic", format!("second close() panicked: {p}"));
+        side.fail_once(log, on, "panic", format!("second close() panicked: {p}"));
     }
     let s2 = side.snapshot();
     if s1 != s2 {
-        log.fail(on, "second-close-changed-state", format!("{}: {} -> {}", side.name, s1, s2));
+        side.fail_once(log, on, "second-close-changed-state", format!("{}: {} -> {}", side.name, s1, s2));
     }
-    if !is_terminal(side.state()) || side.reason().is_none() {
-        log.fail(on, if is_terminal(side.state()) { "no-reason" } else { "no-terminal-state" }, format!("{}: after close(): {}", side.name, s2));
+    if !is_terminal(side.state()) {
+        side.fail_once(log, on, "no-terminal-state", format!("{}: after close(): {}", side.name, s2));
+    } else if side.reason().is_none() {
+        side.fail_once(log, on, "no-reason", format!("{}: after close(): {}", side.name, s2));
     }
 }
 
 // ───────────────────────────── one run ─────────────────────────────
+
+static LIVE_TASKS: Mutex<Option<Arc<Mutex<BTreeMap<String, String>>>>> = Mutex::new(None);
+
+fn live_task_locations() -> Vec<String> {
+    LIVE_TASKS.lock().unwrap().as_ref().map(|m| m.lock().unwrap().values().cloned().collect()).unwrap_or_default()
+}
 
 struct RunResult {
     fails: Vec<Fail>,
@@ -1157,6 +1249,7 @@ struct RunResult {
     datagrams: u64,
     dgram_kinds: Vec<u8>,
     reached: Vec<String>,
+    steady_datagrams: u64,
     tasks_baseline: usize,
     tasks_after: usize,
     fds_before: usize,
@@ -1201,6 +1294,7 @@ async fn run_case_async(case: Case, log: Log) -> RunResult {
         src_task: Mutex::new(None),
         relay: relay.clone(),
         reached: Mutex::new(vec![]),
+        steady_datagrams: AtomicU64::new(0),
     });
 
     let mut script_task = tokio::spawn(script(sh.clone(), case.clone(), fire.clone(), log.clone()));
@@ -1336,6 +1430,7 @@ async fn run_case_async(case: Case, log: Log) -> RunResult {
                     let _ = (&mut script_task).await;
                 }
             }
+            script_done = Some(false);
         }
 
         // ---- judge
@@ -1346,53 +1441,48 @@ async fn run_case_async(case: Case, log: Log) -> RunResult {
         let (act, obs): (&mut Side, &mut Side) = if actor_is_a { (&mut a, &mut b) } else { (&mut b, &mut a) };
         let first = case.events.first().cloned().unwrap_or_default();
 
-        // acting side
-        let act_cap = if silent { NOTICE_CAP } else { GRACE };
-        let act_must_end = !silent || need_notice(&case, act);
-        if act_must_end {
-            let t = Instant::now();
-            judge_terminal(act, "actor", act_cap, &log).await;
-            judge_channels(act, "actor", GRACE.saturating_sub(t.elapsed().min(GRACE)).max(Duration::from_millis(300)), &log).await;
-            judge_pending(act, "actor", &log).await;
-            judge_subsequent(act, "actor", &log).await;
-        }
-        // observing side
-        if both_acted {
-            judge_terminal(obs, "actor", GRACE, &log).await;
-            judge_channels(obs, "actor", Duration::from_millis(500), &log).await;
-            judge_pending(obs, "actor", &log).await;
-            judge_subsequent(obs, "actor", &log).await;
-        } else if need_notice(&case, obs) && first != "blocked-close" {
-            if judge_terminal(obs, "observer", NOTICE_CAP, &log).await {
-                judge_channels(obs, "observer", GRACE, &log).await;
-                judge_pending(obs, "observer", &log).await;
+        // acting side: a local event ends the connection within GRACE; if the only event is the
+        // network going silent, the acting side is an observer of the loss like its peer.
+        // observing side: must notice only where a lower layer can tell it (see need_notice).
+        // What tells it: ICE keepalive timeouts once it was Connected (NOTICE_CAP); while it is
+        // still connecting, the ICE check / DTLS handshake timeout (30 s, a constant of rustrtc).
+        let notice_cap = |s: &Side| -> (Duration, bool) {
+            if let Some(ms) = std::env::var("C17_NOTICE_MS").ok().and_then(|v| v.parse::<u64>().ok()) {
+                return (Duration::from_millis(ms), false);
             }
-            judge_subsequent(obs, "observer", &log).await;
+            if s.ever_connected.load(Ordering::SeqCst) {
+                (NOTICE_CAP, false)
+            } else if case.long_notice {
+                (DTLS_HANDSHAKE_TIMEOUT + NOTICE_CAP, false)
+            } else {
+                (NOTICE_CAP, true)
+            }
+        };
+        let (act_cap, act_defer) = if silent {
+            if need_notice(&case, act) { let (c, d) = notice_cap(act); (Some(c), d) } else { (None, false) }
         } else {
-            // the peer is not required to notice; its API must still not hang
-            judge_subsequent(obs, "observer", &log).await;
-        }
+            (Some(GRACE), false)
+        };
+        let (obs_cap, obs_defer) = if both_acted {
+            (Some(GRACE), false)
+        } else if need_notice(&case, obs) && first != "blocked-close" {
+            let (c, d) = notice_cap(obs);
+            (Some(c), d)
+        } else {
+            (None, false)
+        };
+        let deferred = Arc::new(AtomicU64::new(0));
+        let (sa, so) = tokio::join!(judge_one(act, "actor", act_cap, act_defer, &log, &deferred), judge_one(obs, "observer", obs_cap, obs_defer, &log, &deferred));
         obs_json = json!({
-            "actor_after_event": act.snapshot(),
-            "observer_after_event": obs.snapshot(),
+            "actor_after_event": sa,
+            "observer_after_event": so,
+            "notice_deferred": deferred.load(Ordering::SeqCst),
         });
-
-        // explicit close on whatever is still held: harmless, and a second close is a no-op
-        judge_second_close(act, "actor", &log);
-        judge_second_close(obs, "observer", &log);
-        // every side has now been closed by the application: all opened channels end
-        judge_channels(act, "actor", GRACE, &log).await;
-        judge_channels(obs, "observer", GRACE, &log).await;
-        if act.pc.is_some() {
-            judge_pending(act, "actor", &log).await;
-        }
-        if obs.pc.is_some() {
-            judge_pending(obs, "observer", &log).await;
-        }
-    } else if !script_task.is_finished() {
+    } else if script_done.is_none() {
         fire.set();
         script_task.abort();
         let _ = (&mut script_task).await;
+        script_done = Some(false);
     }
 
     // ---- release everything the application held
@@ -1400,10 +1490,10 @@ async fn run_case_async(case: Case, log: Log) -> RunResult {
         Some(r) => (r.count.load(Ordering::SeqCst), r.kinds.lock().unwrap().clone()),
         None => (0, vec![]),
     };
-    if !script_task.is_finished() {
+    if script_done.is_none() {
         script_task.abort();
+        let _ = script_task.await;
     }
-    let _ = script_task.await;
     if let Some(h) = sh.src_task.lock().unwrap().take() {
         h.abort();
         let _ = h.await;
@@ -1434,6 +1524,7 @@ async fn run_case_async(case: Case, log: Log) -> RunResult {
         r.shutdown().await;
     }
     let reached = sh.reached.lock().unwrap().clone();
+    let steady_datagrams = sh.steady_datagrams.load(Ordering::SeqCst);
     drop(sh);
     drop(relay);
 
@@ -1449,7 +1540,7 @@ async fn run_case_async(case: Case, log: Log) -> RunResult {
     }
     log.note(format!("leak check: tasks {tasks_baseline} -> {tasks_after}, socket fds {fds_before} -> {fds_after} after {:?}", t.elapsed()));
     if tasks_after > tasks_baseline {
-        log.fail("run", "task-leak", format!("{} task(s) of the private runtime still alive {:?} after both PeerConnections and every handle were dropped (baseline {})", tasks_after - tasks_baseline, GRACE, tasks_baseline));
+        log.fail("run", "task-leak", format!("{} task(s) of the private runtime still alive {:?} after both PeerConnections and every handle were dropped (baseline {}); spawned at {:?}", tasks_after - tasks_baseline, GRACE, tasks_baseline, live_task_locations()));
     }
     if fds_after > fds_before {
         log.fail("run", "fd-leak", format!("{} socket descriptor(s) still open {:?} after both PeerConnections were dropped ({} -> {})", fds_after - fds_before, GRACE, fds_before, fds_after));
@@ -1466,6 +1557,7 @@ async fn run_case_async(case: Case, log: Log) -> RunResult {
         datagrams,
         dgram_kinds,
         reached,
+        steady_datagrams,
         tasks_baseline,
         tasks_after,
         fds_before,
@@ -1476,7 +1568,22 @@ async fn run_case_async(case: Case, log: Log) -> RunResult {
 
 fn run_case(case: &Case) -> Value {
     let log = Log::new();
-    let rt = match tokio::runtime::Builder::new_multi_thread().worker_threads(2).enable_all().build() {
+    // registry of live tasks (spawn location), for the detail of a task-leak report
+    let live: Arc<Mutex<BTreeMap<String, String>>> = Arc::new(Mutex::new(BTreeMap::new()));
+    let (l1, l2) = (live.clone(), live.clone());
+    *LIVE_TASKS.lock().unwrap() = Some(live.clone());
+    let rt = match tokio::runtime::Builder::new_multi_thread()
+        .worker_threads(2)
+        .enable_all()
+        .on_task_spawn(move |m| {
+            let loc = m.spawned_at();
+            l1.lock().unwrap().insert(format!("{}", m.id()), format!("{}:{}", loc.file().rsplit("/src/").next().unwrap_or(loc.file()), loc.line()));
+        })
+        .on_task_terminate(move |m| {
+            l2.lock().unwrap().remove(&format!("{}", m.id()));
+        })
+        .build()
+    {
         Ok(rt) => rt,
         Err(e) => return json!({"case": case.to_json(), "machinery": format!("runtime: {e}")}),
     };
@@ -1513,6 +1620,7 @@ fn run_case(case: &Case) -> Value {
         "datagrams": r.datagrams,
         "dgram_kinds": r.dgram_kinds,
         "reached": r.reached,
+        "steady_datagrams": r.steady_datagrams,
         "tasks": [r.tasks_baseline, r.tasks_after],
         "fds": [r.fds_before, r.fds_after],
         "obs": r.obs,
@@ -1539,7 +1647,13 @@ fn worker_main() -> ! {
         }
         let Ok(v) = serde_json::from_str::<Value>(&line) else { continue };
         let Some(case) = Case::from_json(&v) else { continue };
-        let out = run_case(&case);
+        let mut out = run_case(&case);
+        let mut attempts = 1;
+        while attempts < 6 && out["fails"].as_array().map(|a| a.iter().any(|f| f["kind"] == "unreached" && f["detail"].as_str().unwrap_or("").starts_with("set-up failed"))).unwrap_or(false) {
+            out = run_case(&case);
+            attempts += 1;
+        }
+        out["setup_attempts"] = json!(attempts);
         println!("{}", out);
         let _ = std::io::stdout().flush();
     }
@@ -1670,15 +1784,16 @@ fn signature(kind: &str, on: &str, case: &Case) -> String {
 
 fn enumerate_cases(tier: vh::Tier, k_of: &BTreeMap<String, u64>) -> Vec<Case> {
     let mut out = vec![];
+    let long_notice = tier == vh::Tier::Thorough;
     for mode in ["WebRtc", "Srtp", "Rtp"] {
         for p in points_of(mode) {
             for actor in ["A", "B"] {
                 for ev in ["close", "drop", "ice-stop"] {
-                    out.push(Case { mode: mode.into(), point: format!("phase:{p}"), events: vec![ev.into()], actor: actor.into(), relay: false });
+                    out.push(Case { mode: mode.into(), point: format!("phase:{p}"), events: vec![ev.into()], actor: actor.into(), relay: false, long_notice });
                 }
                 // a sender can only be blocked on a full SCTP window once a channel is open
-                if mode == "WebRtc" && matches!(*p, "channel-open" | "media-flowing" | "renegotiating") {
-                    out.push(Case { mode: mode.into(), point: format!("phase:{p}"), events: vec!["blocked-close".into()], actor: actor.into(), relay: false });
+                if mode == "WebRtc" && matches!(*p, "channel-open" | "media-flowing" | "renegotiating" | "renegotiated") {
+                    out.push(Case { mode: mode.into(), point: format!("phase:{p}"), events: vec!["blocked-close".into()], actor: actor.into(), relay: false, long_notice });
                 }
             }
         }
@@ -1700,7 +1815,7 @@ fn enumerate_cases(tier: vh::Tier, k_of: &BTreeMap<String, u64>) -> Vec<Case> {
                         ["ice-stop", "other:close"],
                         ["close", "other:ice-stop"],
                     ] {
-                        out.push(Case { mode: mode.into(), point: format!("phase:{p}"), events: pair.iter().map(|s| s.to_string()).collect(), actor: actor.into(), relay: false });
+                        out.push(Case { mode: mode.into(), point: format!("phase:{p}"), events: pair.iter().map(|s| s.to_string()).collect(), actor: actor.into(), relay: false, long_notice });
                     }
                 }
             }
@@ -1711,14 +1826,46 @@ fn enumerate_cases(tier: vh::Tier, k_of: &BTreeMap<String, u64>) -> Vec<Case> {
             for i in 1..=k {
                 for actor in ["A", "B"] {
                     for ev in ["close", "drop", "ice-stop"] {
-                        out.push(Case { mode: mode.into(), point: format!("dgram:{i}"), events: vec![ev.into()], actor: actor.into(), relay: true });
+                        out.push(Case { mode: mode.into(), point: format!("dgram:{i}"), events: vec![ev.into()], actor: actor.into(), relay: true, long_notice });
                     }
                 }
-                out.push(Case { mode: mode.into(), point: format!("dgram:{i}"), events: vec!["silent".into()], actor: "A".into(), relay: true });
+                out.push(Case { mode: mode.into(), point: format!("dgram:{i}"), events: vec!["silent".into()], actor: "A".into(), relay: true, long_notice });
             }
         }
     }
     out
+}
+
+fn point_rank(case: &Case) -> usize {
+    if let Some(p) = case.point.strip_prefix("phase:") {
+        points_of(&case.mode).iter().position(|x| *x == p).unwrap_or(99)
+    } else if let Some(k) = case.point.strip_prefix("dgram:") {
+        100 + k.parse::<usize>().unwrap_or(0)
+    } else {
+        999
+    }
+}
+
+fn replay_json(case: &Case, kind: &str, on: &str) -> Value {
+    json!({"case": case.to_json(), "kind": kind, "on": on})
+}
+
+/// Re-runs `case` alone (one child, nothing else running) up to three times; true iff it fails
+/// every time with (kind, on).
+fn confirm_alone(case: &Case, kind: &str, on: &str, runs: &mut u64) -> (bool, Vec<Value>) {
+    let mut outs = vec![];
+    for _ in 0..3 {
+        let r = run_parallel(std::slice::from_ref(case), 1);
+        *runs += 1;
+        let v = r.into_iter().next().unwrap_or(json!({}));
+        let (kinds, _) = verdict_kinds(&v);
+        let hit = kinds.iter().any(|(k, o)| k == kind && o == on);
+        outs.push(v);
+        if !hit {
+            return (false, outs);
+        }
+    }
+    (true, outs)
 }
 
 fn main() {
@@ -1728,7 +1875,9 @@ fn main() {
     }
     if let Some(i) = cli.rest.iter().position(|a| a == "--one") {
         // debugging aid: c17 --one '<case json>'
-        if std::env::var("C17_LOUD").is_err() { vh::install_quiet_panic_hook(); }
+        if std::env::var("C17_LOUD").is_err() {
+            vh::install_quiet_panic_hook();
+        }
         let v: Value = serde_json::from_str(cli.rest.get(i + 1).map(|s| s.as_str()).unwrap_or("{}")).unwrap_or(json!({}));
         let Some(case) = Case::from_json(&v) else { vh::machinery_failure("bad --one case") };
         let out = run_case(&case);
@@ -1736,10 +1885,256 @@ fn main() {
             println!("{}", l.as_str().unwrap_or(""));
         }
         println!("fails: {}", serde_json::to_string_pretty(&out["fails"]).unwrap_or_default());
-        println!("reached={} datagrams={} tasks={} fds={} obs={}", out["reached"], out["datagrams"], out["tasks"], out["fds"], out["obs"]);
+        println!("reached={} datagrams={} steady_datagrams={} tasks={} fds={} obs={}", out["reached"], out["datagrams"], out["steady_datagrams"], out["tasks"], out["fds"], out["obs"]);
         std::process::exit(0);
     }
+
+    // ---- replay: the single stored case, alone, twice
+    if let Some(path) = &cli.replay {
+        let txt = std::fs::read_to_string(path).unwrap_or_else(|e| vh::machinery_failure(&format!("replay file: {e}")));
+        let v: Value = serde_json::from_str(&txt).unwrap_or_else(|e| vh::machinery_failure(&format!("replay json: {e}")));
+        let r = if v.get("replay").is_some() { v["replay"].clone() } else { v.clone() };
+        let Some(case) = Case::from_json(&r["case"]) else { vh::machinery_failure("replay: no case") };
+        let kind = r["kind"].as_str().unwrap_or("").to_string();
+        let on = r["on"].as_str().unwrap_or("").to_string();
+        let mut still = 0;
+        for i in 0..2 {
+            let out = run_parallel(std::slice::from_ref(&case), 1).into_iter().next().unwrap_or(json!({}));
+            println!("--- replay run {} of {}", i + 1, case.key());
+            for l in out["trace"].as_array().cloned().unwrap_or_default() {
+                println!("{}", l.as_str().unwrap_or(""));
+            }
+            let (kinds, mach) = verdict_kinds(&out);
+            println!("failure kinds: {kinds:?} machinery: {mach:?}");
+            if kinds.iter().any(|(k, o)| (kind.is_empty() || *k == kind) && (on.is_empty() || *o == on)) {
+                still += 1;
+            }
+        }
+        if still == 2 {
+            println!("VIOLATION property=C17 replay={} (reproduced in 2 of 2 runs: {})", path.display(), signature(&kind, &on, &case));
+            std::process::exit(1);
+        }
+        println!("replay: not reproduced in every run ({still} of 2)");
+        std::process::exit(0);
+    }
+
     let mut rep = vh::Report::new("C17", &cli, "fault_enumeration");
-    let _ = &mut rep;
-    vh::machinery_failure("driver not implemented yet");
+    let t_start = Instant::now();
+    let workers: usize = std::env::var("C17_WORKERS").ok().and_then(|s| s.parse().ok()).unwrap_or(28);
+
+    // ---- fault-free runs (vacuity guard; thorough: measure K through the relay)
+    let mut k_of: BTreeMap<String, u64> = BTreeMap::new();
+    let thorough = cli.tier == vh::Tier::Thorough;
+    {
+        let mut ff = vec![];
+        for mode in ["WebRtc", "Srtp", "Rtp"] {
+            for _ in 0..(if thorough { 3 } else { 1 }) {
+                ff.push(Case { mode: mode.into(), point: "none".into(), events: vec!["close".into()], actor: "A".into(), relay: thorough, long_notice: false });
+            }
+        }
+        let mut rs = run_parallel(&ff, ff.len());
+        for _ in 0..2 {
+            for i in 0..ff.len() {
+                let steady = rs[i]["reached"].as_array().map(|a| a.iter().any(|s| s == "steady")).unwrap_or(false);
+                if !steady {
+                    rs[i] = run_parallel(std::slice::from_ref(&ff[i]), 1).into_iter().next().unwrap_or(json!({}));
+                }
+            }
+        }
+        for (c, v) in ff.iter().zip(rs.iter()) {
+            let steady = v["reached"].as_array().map(|a| a.iter().any(|s| s == "steady")).unwrap_or(false);
+            if !steady {
+                vh::machinery_failure(&format!("fault-free {} run did not reach steady state: {}", c.mode, v["fails"]));
+            }
+            if thorough {
+                let k = v["steady_datagrams"].as_u64().unwrap_or(0);
+                if k == 0 {
+                    vh::machinery_failure("relay forwarded no datagram in a fault-free run");
+                }
+                let e = k_of.entry(c.mode.clone()).or_insert(0);
+                *e = (*e).max(k);
+            }
+        }
+        rep.add("fault_free_runs", ff.len() as u64);
+        if thorough {
+            rep.set("K_datagrams_per_mode", json!(k_of));
+        }
+    }
+    if let Ok(s) = std::env::var("C17_KMAX") {
+        if let Ok(m) = s.parse::<u64>() {
+            for v in k_of.values_mut() {
+                *v = (*v).min(m);
+            }
+            rep.set("caps_hit", json!(format!("C17_KMAX={m}")));
+        }
+    }
+
+    // ---- phase 1: every case, in parallel across worker processes
+    let cases = enumerate_cases(cli.tier, &k_of);
+    let filter = std::env::var("C17_FILTER").ok();
+    let cases: Vec<Case> = cases.into_iter().filter(|c| filter.as_ref().map(|f| c.key().contains(f.as_str())).unwrap_or(true)).collect();
+    let mut results = run_parallel(&cases, workers);
+    let mut runs = cases.len() as u64;
+    // a crash point that was not reached is harness trouble: retry (alone-ish) before giving up
+    let mut unreached: Vec<usize> = vec![];
+    for round in 0..2 {
+        let idx: Vec<usize> = (0..cases.len()).filter(|i| !verdict_kinds(&results[*i]).1.is_empty()).collect();
+        if idx.is_empty() {
+            break;
+        }
+        let sub: Vec<Case> = idx.iter().map(|i| cases[*i].clone()).collect();
+        let rs = run_parallel(&sub, if round == 0 { workers / 2 } else { 2 });
+        runs += sub.len() as u64;
+        for (i, v) in idx.iter().zip(rs.into_iter()) {
+            results[*i] = v;
+        }
+    }
+    for i in 0..cases.len() {
+        if !verdict_kinds(&results[i]).1.is_empty() {
+            unreached.push(i);
+        }
+    }
+    let phase1_wall = t_start.elapsed().as_secs_f64();
+    if let Ok(p) = std::env::var("C17_DUMP") {
+        let _ = std::fs::write(p, serde_json::to_string(&results).unwrap_or_default());
+    }
+
+    // ---- classify
+    let known = vh::load_findings("C17");
+    let is_known = |sig: &str| known.iter().any(|f| f.status == "known" && vh::glob_match(&f.pattern, sig));
+    struct Hit {
+        idx: usize,
+        kind: String,
+        on: String,
+        sig: String,
+        detail: String,
+    }
+    let mut hits: Vec<Hit> = vec![];
+    let mut outcomes: BTreeMap<String, u64> = BTreeMap::new();
+    let mut kinds_count: BTreeMap<String, u64> = BTreeMap::new();
+    for (i, v) in results.iter().enumerate() {
+        let (kinds, _) = verdict_kinds(v);
+        let oc = format!("{}|{}|{}|{:?}", cases[i].mode, v["obs"]["actor_after_event"].as_str().unwrap_or("-"), v["obs"]["observer_after_event"].as_str().unwrap_or("-"), kinds);
+        *outcomes.entry(oc).or_default() += 1;
+        for (k, on) in kinds {
+            *kinds_count.entry(format!("{k}@{on}")).or_default() += 1;
+            let detail = v["fails"].as_array().and_then(|a| a.iter().find(|f| f["kind"] == k.as_str() && f["on"] == on.as_str())).map(|f| f["detail"].as_str().unwrap_or("").to_string()).unwrap_or_default();
+            hits.push(Hit { idx: i, sig: signature(&k, &on, &cases[i]), kind: k, on, detail });
+        }
+    }
+
+    // known findings: reported without confirmation (they never fail the check)
+    let mut n_known = 0u64;
+    let mut unlisted: Vec<&Hit> = vec![];
+    for h in &hits {
+        if is_known(&h.sig) {
+            n_known += 1;
+            rep.violation(vh::Violation { signature: h.sig.clone(), detail: h.detail.clone(), replay: replay_json(&cases[h.idx], &h.kind, &h.on) });
+        } else {
+            unlisted.push(h);
+        }
+    }
+
+    // ---- phase 2: false-alarm control. Every unlisted failing (point, event, mode) is re-run
+    // three times alone; simplest first, one per failure class first so that a time cap (quick
+    // tier) cuts the tail, never the variety.
+    unlisted.sort_by_key(|h| (cases[h.idx].events.len(), point_rank(&cases[h.idx]), cases[h.idx].mode.clone(), h.kind.clone()));
+    let mut order: Vec<&Hit> = vec![];
+    let mut seen_class: Vec<String> = vec![];
+    for level in 0..3 {
+        for h in &unlisted {
+            let class = match level {
+                0 => format!("{}@{}", h.kind, h.on),
+                1 => format!("{}@{}|{}", h.kind, h.on, cases[h.idx].mode),
+                _ => h.sig.clone(),
+            };
+            if !seen_class.contains(&class) {
+                seen_class.push(class);
+                if !order.iter().any(|o| o.sig == h.sig) {
+                    order.push(h);
+                }
+            }
+        }
+    }
+    let confirm_budget = Duration::from_secs(if thorough { 900 } else { 28 });
+    let t_confirm = Instant::now();
+    let mut confirmed = 0u64;
+    let mut flaky: Vec<Value> = vec![];
+    let mut unconfirmed: Vec<String> = vec![];
+    let mut confirm_runs = 0u64;
+    for h in order {
+        if t_confirm.elapsed() > confirm_budget && confirmed > 0 {
+            unconfirmed.push(h.sig.clone());
+            continue;
+        }
+        let (ok, outs) = confirm_alone(&cases[h.idx], &h.kind, &h.on, &mut confirm_runs);
+        if ok {
+            confirmed += 1;
+            let also: Vec<String> = unlisted.iter().filter(|o| o.kind == h.kind && o.on == h.on && o.sig != h.sig).map(|o| format!("{}/{}/{}/{}", cases[o.idx].mode, cases[o.idx].point, cases[o.idx].event_name(), cases[o.idx].actor)).take(40).collect();
+            let trace: Vec<String> = outs.last().and_then(|v| v["trace"].as_array().cloned()).unwrap_or_default().iter().filter_map(|l| l.as_str().map(|s| s.to_string())).collect();
+            rep.violation(vh::Violation {
+                signature: h.sig.clone(),
+                detail: format!("{} [failed in the parallel pass and in 3 of 3 runs alone] same kind in the parallel pass at: {:?}", h.detail, also),
+                replay: json!({"case": cases[h.idx].to_json(), "kind": h.kind, "on": h.on, "trace": trace}),
+            });
+        } else {
+            flaky.push(json!({"signature": h.sig, "case": cases[h.idx].to_json(), "failed_runs_alone": outs.len() - 1}));
+        }
+    }
+    runs += confirm_runs;
+
+    // ---- evidence
+    let judged = cases.len() - unreached.len();
+    rep.add("evaluations", runs);
+    rep.add("cases", cases.len() as u64);
+    rep.add("cases_judged", judged as u64);
+    rep.set("distinct_nontrivial", outcomes.len() as u64);
+    rep.set("distinct_outcomes", json!(outcomes));
+    rep.set("failure_kinds_parallel_pass", json!(kinds_count));
+    rep.set(
+        "rule",
+        "one evaluation = one execution of two real PeerConnections on 127.0.0.1 in a private runtime, judged by the C17 oracle; cases = mode x crash point x event(s) x acting side, enumerated completely; distinct_nontrivial = number of distinct (mode, acting side end state/reason/signaling, observing side end state/reason/signaling, failure kinds) classes observed after the event",
+    );
+    rep.set("exhaustive", unreached.is_empty() && std::env::var("C17_FILTER").is_err() && std::env::var("C17_KMAX").is_err());
+    rep.set("space", json!({
+        "modes": ["WebRtc", "Srtp", "Rtp"],
+        "points_webrtc": WEBRTC_POINTS,
+        "points_srtp_rtp": DIRECT_POINTS,
+        "events": if thorough { json!(["close", "drop", "ice-stop", "blocked-close", "silent", "pairs (10, both orders)"]) } else { json!(["close", "drop", "ice-stop", "blocked-close"]) },
+        "acting_side": ["A(offerer)", "B(answerer)"],
+        "observer_events_judged_in_the_same_run": ["peer-close", "peer-drop", "peer-ice-stop (silence)"],
+    }));
+    rep.set("phase1_wall_s", phase1_wall);
+    rep.set("confirm_runs_alone", confirm_runs);
+    rep.set("confirmed_violations", confirmed);
+    rep.set("known_finding_case_hits", n_known);
+    rep.set("flaky", json!(flaky));
+    rep.set("unconfirmed_after_time_cap", json!(unconfirmed));
+    rep.set("unreached", json!(unreached.iter().map(|i| json!({"case": cases[*i].to_json(), "why": verdict_kinds(&results[*i]).1})).collect::<Vec<_>>()));
+    rep.set("fd_accounting", "per worker process, runs strictly sequential inside a process; sockets counted from /proc/self/fd inside the run's private runtime before the first PeerConnection and after the last handle is dropped");
+    rep.set("grace_ms", GRACE.as_millis() as u64);
+    rep.set("notice_cap_ms", NOTICE_CAP.as_millis() as u64);
+    for i in [0usize, cases.len() / 2, cases.len().saturating_sub(1)] {
+        if let Some(v) = results.get(i) {
+            rep.sample(json!({"case": cases[i].to_json(), "end_states": v["obs"], "reached": v["reached"], "tasks_baseline_after": v["tasks"], "socket_fds_before_after": v["fds"], "trace": v["trace"]}));
+        }
+    }
+    rep.assume("terminal peer state = Failed or Closed (Disconnected is documented as recoverable and is not accepted as terminal)");
+    rep.assume("grace period 2 s real time; a peer that can only learn of the loss through ICE timeouts is given ice_connection_timeout(2 s, configured) + 1 s keepalive tick + ice_disconnect_grace(0.3 s) + 1 s + grace");
+    rep.assume("a peer is required to notice a loss only in WebRtc mode after it has a remote description (ICE keepalive / DTLS close_notify exist there); in Srtp/Rtp direct modes no lower layer reports peer loss, the peer is only required not to hang and to close cleanly");
+    rep.assume("drop: tasks holding a PeerConnection clone are cancelled first (a pending PeerConnection-level call keeps the connection alive by construction); state and reason are read through watch receivers subscribed before the drop");
+    rep.assume("blocked sender: the peer is silenced with ice_transport().stop(), the sender is observed inside one send_data call for 150 ms, then close()");
+    rep.assume("timeouts are shortened through RtcConfiguration (stun 0.5 s, nomination 0.8 s, ICE disconnect 1 s / failed 2 s / grace 0.3 s, SCTP RTO 0.1-1 s, sctp_max_buffered_amount 32 KiB); other values default");
+    rep.assume("thread schedules are whatever the 2-worker runtime produces (not enumerated); peer SCTP ABORT/SHUTDOWN are exercised at transport level elsewhere");
+    if outcomes.len() < 2 {
+        vh::machinery_failure("fewer than 2 distinct outcomes: vacuous run");
+    }
+    if !unreached.is_empty() {
+        let code = rep.finish();
+        if code == 0 {
+            vh::machinery_failure(&format!("{} crash point(s) could not be reached in 3 attempts (see evidence.unreached)", unreached.len()));
+        }
+        std::process::exit(code);
+    }
+    std::process::exit(rep.finish());
 }
